@@ -1,6 +1,7 @@
 /- Model/C19Gen.lean — the C19 model instantiated with the facts the translator extracted. -/
 import PsutilModel.Model.C19
 import PsutilModel.Model.C19Dir
+import PsutilModel.Model.C19Boot
 import PsutilModel.Generated.C19
 namespace Psutil.C19
 
@@ -50,6 +51,22 @@ def coretempConsulted : Bool := Gen.C19.tempGlobs.contains coretempGlob
 /-- `boot_time()` returns the value it has just read (`return ret`, `ret = float(line.strip().split()[1])`),
     not the remembered module global -/
 def bootReturnsFresh : Bool := Gen.C19.bootTimeReturn == ["ret", "float(line.strip().split()[1])"]
+
+/-- the return rule of `boot_time()` the histories of Model/C19Boot.lean run with -/
+def bootRule : BootRule := ruleOf bootReturnsFresh
+
+/-- the frame of the history model (Model/C19Boot.lean): BOOT_TIME is named nowhere but in `boot_time()` (tested,
+    written once) and in `Process.create_time()` (read: `BOOT_TIME if BOOT_TIME is not None else boot_time()`,
+    added to `ctime / CLOCK_TICKS`), and the front end `psutil.boot_time()` is a plain delegation (no state of
+    its own). Obligation `cfg_boot_hist` in Props/C19.lean. -/
+def bootHistAsModelled : Bool :=
+  Gen.C19.bootGlobalUses == ["_pslinux/<module>:store", "_pslinux/boot_time:global", "_pslinux/boot_time:load",
+                             "_pslinux/boot_time:store", "_pslinux/Process.create_time:load",
+                             "_pslinux/Process.create_time:load"]
+  && Gen.C19.bootTimeFront == ["return _psplatform.boot_time()"]
+  && Gen.C19.createTimeBody == ["ctime = float(self._parse_stat_file()['create_time'])",
+                                "bt = BOOT_TIME if BOOT_TIME is not None else boot_time()",
+                                "return ctime / CLOCK_TICKS + bt"]
 
 /-- `_common.cat/bcat(path, fallback=…)` turn EVERY OSError — raised by `open()` or by `read()` — into the
     fallback: what the model's single `unreadable` file state (`FileState.readOpt = none`) stands on.
